@@ -206,6 +206,7 @@ func main() {
 		r.Do(f[0], f[1:], "corpus", true, "corpus")
 		r.res.CorpusRun++
 	}
+	r.warmUp(*prop)
 	rule := run(r)
 	for _, g := range extraGens[*prop] {
 		g(r)
